@@ -221,6 +221,15 @@ func VerifC17_CardClone() {
 	for k := 1; k <= 4; k++ {
 		verifAssert(c.Doors[uint8(k)] == want[k], "Card.Clone: equal door permissions")
 	}
+	// writing into the clone does not reach the original (an empty door map included) ...
+	for k := 1; k <= 4; k++ {
+		c.Doors[uint8(k)] = want[k] + 1
+	}
+	for k := 1; k <= 4; k++ {
+		verifAssert(card.Doors[uint8(k)] == want[k], "Card.Clone: writing into the clone's door map does not change the original")
+		c.Doors[uint8(k)] = want[k]
+	}
+	// ... nor the other way round
 	verifHavoc(&card)
 	for k := 1; k <= 4; k++ {
 		verifAssert(c.Doors[uint8(k)] == want[k], "Card.Clone: door map shares no storage with the original")
